@@ -649,7 +649,7 @@ func (nfs *Nfs) NFSPROC3_RENAME(args nfstypes.RENAME3args) nfstypes.RENAME3res {
 		toh := fh.MakeFh(args.To.Dir)
 		fromh := fh.MakeFh(args.From.Dir)
 
-		if dir.IllegalName(args.From.Name) {
+		if dir.IllegalName(args.From.Name) || dir.IllegalName(args.To.Name) {
 			errRet(op, &reply.Status, nfstypes.NFS3ERR_INVAL)
 			done = true
 			break
